@@ -80,3 +80,76 @@ Print Assumptions C07_inv_unset.
 Theorem C07_inv_push : forall ss, scope_inv ss -> scope_inv (sc_push ss).
 Proof. exact sc_push_inv. Qed.
 Print Assumptions C07_inv_push.
+
+(* ---- refinement over every operation sequence (Proofs/ScopeRefineFacts.v) ----
+   Abstract state: a global frame and a stack of procedure frames, each mapping a name to
+   Unset | Scalar v | Array m | Link (declared `global`).  [run_ops] runs a list of variable
+   operations (set/get/unset, element and array operations, exists, listings, global, push = call,
+   pop = return) on the model's scope stack, [a_run_ops] on the abstract state; [R] relates a scope
+   stack to the abstract state it represents. *)
+From Molt Require Import Model.Eval Model.Commands Proofs.ScopeRefineFacts.
+
+(* from the initial scopes, EVERY balanced operation sequence produces the abstract outputs and an
+   abstract-equivalent state *)
+Theorem C07_sequences_refine : forall ops,
+  balanced_from O ops ->
+  R (fst (run_ops [[]] ops)) (fst (a_run_ops a_init ops)) /\
+  Forall2 out_match (snd (run_ops [[]] ops)) (snd (a_run_ops a_init ops)).
+Proof. exact run_refines_init. Qed.
+Print Assumptions C07_sequences_refine.
+
+Theorem C07_step_refines : forall ss o,
+  winv ss -> (o = OPop -> (2 <= length ss)%nat) ->
+  winv (fst (m_step ss o)) /\
+  aeq (abs (fst (m_step ss o))) (fst (a_step (abs ss) o)) /\
+  out_match (snd (m_step ss o)) (snd (a_step (abs ss) o)).
+Proof. exact step_refines_abs. Qed.
+Print Assumptions C07_step_refines.
+
+(* a read returns the last value written, whatever happened to other names in between *)
+Theorem C07_last_write : forall ss n v ss1 ops,
+  winv ss -> sc_set ss n v = (ss1, Ok tt) -> Forall (untouched n) ops ->
+  sc_get (fst (run_ops ss1 ops)) n = Ok v.
+Proof. exact last_write. Qed.
+Print Assumptions C07_last_write.
+
+(* a whole call: whatever the body does, on return the caller's frames are as before, and the
+   global frame changes only at names the body declared `global` *)
+Theorem C07_call_returns : forall ss ops,
+  winv ss -> balanced_from O ops -> depth_after O ops = O ->
+  let ss' := sc_pop (fst (run_ops (sc_push ss) ops)) in
+  winv ss' /\ length ss' = length ss /\
+  (forall k n, (0 < k)%nat -> ent ss' k n = ent ss k n) /\
+  (forall n, Forall (no_decl n) ops -> ent ss' O n = ent ss O n) /\
+  (forall n, Forall (no_decl n) ops -> shape_of ss' n = shape_of ss n).
+Proof. exact call_returns. Qed.
+Print Assumptions C07_call_returns.
+
+(* removing something that does not exist creates nothing *)
+Theorem C07_removal_creates_nothing : forall ss n k n',
+  winv ss ->
+  (ent (sc_unset ss n) k n' = None \/ ent (sc_unset ss n) k n' = ent ss k n') /\
+  (ent (sc_array_unset ss n) k n' = None \/ ent (sc_array_unset ss n) k n' = ent ss k n').
+Proof. exact removal_creates_nothing. Qed.
+Print Assumptions C07_removal_creates_nothing.
+
+(* introspection agrees with what reads would do *)
+Theorem C07_exists_iff_readable : forall ss n,
+  winv ss -> (sc_exists ss n = true <-> (exists v, sc_get ss n = Ok v) \/ sc_array_exists ss n = true).
+Proof. exact exists_agrees. Qed.
+Print Assumptions C07_exists_iff_readable.
+
+(* the variable commands (set, unset, global, incr, append, lappend, array, info ...) touch the scope
+   stack only through these operations, so command sequences refine too *)
+Theorem C07_command_sequences_refine : forall U cs st a,
+  Forall (fun ca => var_command U (fst ca)) cs -> R (i_scopes st) a ->
+  exists ops, Forall simple ops /\
+    i_scopes (run_cmds st cs) = fst (run_ops (i_scopes st) ops) /\
+    R (i_scopes (run_cmds st cs)) (fst (a_run_ops a ops)).
+Proof. exact var_command_sequences_refine. Qed.
+Print Assumptions C07_command_sequences_refine.
+
+(* every scope stack reachable by operations satisfies the invariant *)
+Theorem C07_reachable_invariant : forall ss, reachable ss -> winv ss.
+Proof. exact reachable_winv. Qed.
+Print Assumptions C07_reachable_invariant.
